@@ -32,6 +32,7 @@ type FakeServer struct {
 	Medias      int
 	BackChannel bool
 	Rules       []SrvRule
+	UDPSeqs     []uint16 // when set: the sequence numbers of the datagrams sent after PLAY, in this order
 
 	ln      net.Listener
 	udp     [2]*net.UDPConn
@@ -575,6 +576,16 @@ func rtpBytes(pt byte, seq uint16, ssrc uint32) []byte {
 
 // sendMedia sends a few RTP packets per set-up media after a successful PLAY.
 func (s *FakeServer) sendMedia(st *fakeConnState, write func([]byte) error) {
+	if s.UDPSeqs != nil {
+		// a given arrival history (C14 end to end): one datagram per listed sequence number to every client RTP port
+		for _, seq := range s.UDPSeqs {
+			for i, cp := range st.clientPorts {
+				s.udp[0].WriteToUDP(rtpBytes(96, seq, uint32(0x2000+i)), &net.UDPAddr{IP: net.ParseIP("127.0.0.1"), Port: cp[0]}) //nolint:errcheck
+			}
+			time.Sleep(200 * time.Microsecond)
+		}
+		return
+	}
 	// payload type 96 is what the descriptions announce for ordinary medias; 0 is the back channel's: a hostile server
 	// sends it on every channel, the back channel's own included (where media is supposed to flow the other way)
 	for k := 0; k < 5; k++ {
